@@ -115,8 +115,8 @@ Theorem walk1_terminates (todo0 : list Z) fuel : NoDup todo0 -> (forall v, In v 
   (sumw nodes <= fuel)%nat -> finished1 (run1 adj lcount fuel (init1 todo0)) = true.
 Proof.
   intros Nd0 Hb Hf. apply run1_finishes.
-  - split; cbn [init1 w_todo w_cur]; [intros v Hv; apply Hb; apply in_rev; auto|intros; discriminate].
-  - unfold mu, init1. cbn [w_nh w_todo w_cur curw].
+  - unfold init1. rewrite frev_rev. split; cbn [w_todo w_cur]; [intros v Hv; apply Hb; apply in_rev; auto|intros; discriminate].
+  - unfold mu, init1. rewrite frev_rev. cbn [w_nh w_todo w_cur curw].
     set (nh0 := fold_left (fun m v => zset m v true) todo0 zempty).
     pose proof (sumw_partition (getb nh0) nodes) as P. fold (unmarked nh0) in P.
     assert (L : (sumw (rev todo0) <= sumw (filter (getb nh0) nodes))%nat).
